@@ -16,7 +16,7 @@ func (u *Universe) frameCaseCalls(prop string) []FrameResult {
 			name := fmt.Sprintf("frame:case-calls/%s/%s", funcLabel(fi), cc.Type)
 			r := FrameResult{Name: name, Props: fi.Con.Props, Backend: "goframe"}
 			info := fi.Pkg.TypesInfo
-			var clause *ast.CaseClause
+			var clause, deflt *ast.CaseClause
 			ast.Inspect(fi.Decl.Body, func(n ast.Node) bool {
 				ts, ok := n.(*ast.TypeSwitchStmt)
 				if !ok {
@@ -24,6 +24,9 @@ func (u *Universe) frameCaseCalls(prop string) []FrameResult {
 				}
 				for _, c := range ts.Body.List {
 					cl := c.(*ast.CaseClause)
+					if cl.List == nil && deflt == nil {
+						deflt = cl
+					}
 					for _, tx := range cl.List {
 						if types.ExprString(tx) == cc.Type {
 							clause = cl
@@ -33,12 +36,22 @@ func (u *Universe) frameCaseCalls(prop string) []FrameResult {
 				return true
 			})
 			if clause == nil {
+				// no case of its own: the type is handled by the default clause, if any
+				clause = deflt
+			}
+			if clause == nil {
 				r.Detail = "no type-switch case " + cc.Type + " in " + funcLabel(fi)
 				out = append(out, r)
 				continue
 			}
 			allowed := map[string]bool{}
+			var required []string
 			for _, a := range cc.Allowed {
+				if strings.HasPrefix(a, "!") {
+					// "!name": the case must call it
+					a = a[1:]
+					required = append(required, a)
+				}
 				allowed[a] = true
 			}
 			var bad []string
@@ -70,6 +83,11 @@ func (u *Universe) frameCaseCalls(prop string) []FrameResult {
 				})
 			}
 			sort.Strings(bad)
+			for _, rq := range required {
+				if !seen[rq] {
+					bad = append(bad, "required call "+rq+" is missing")
+				}
+			}
 			r.OK = len(bad) == 0
 			r.Detail = fmt.Sprintf("case %s of %s calls %v; allowed %v; not allowed: %s", cc.Type, funcLabel(fi), sortStrings(seen), cc.Allowed, strings.Join(bad, ", "))
 			if !r.OK {
